@@ -14,6 +14,9 @@ Definition waitfor_event (pid : nat) (q : uq) (s : state) : event :=
   resume_event t (if Qeq_bool t (s_now s) && phase_eqb (s_phase s) AFTER then N.succ (s_mt s) else 0%N)
                AFTER pid (s_nextid s) (WkFor q) (mk_ghost (s_now s) (s_nextid s) [] []).
 
+Definition waitx_event (cfg : config) (pid : nat) (i : nat) (ph : phase) (s : state) : event :=
+  resume_event (next_tick (extra_freq cfg i) (s_now s)) 0 ph pid (s_nextid s) (WkX i ph) (mk_ghost (s_now s) (s_nextid s) [] []).
+
 Definition new_awaiter (pid : nat) (c : clk) (ph : phase) (s : state) : awaiter :=
   mk_awaiter (s_nextid s) ph pid (WkClk c ph) (s_now s).
 Definition new_watch (pid : nat) (m : list sig) (s : state) : watch :=
@@ -38,7 +41,10 @@ Inductive bk_change (cfg : config) (s s' : state) : Prop :=
 | BK_wstable : forall pid,
     s_queue s' = s_queue s -> s_await_a s' = s_await_a s -> s_await_b s' = s_await_b s ->
     s_watches s' = s_watches s -> s_nextid s' = s_nextid s -> s_commitq s' = s_commitq s ++ [(pid, s_now s)] ->
-    bk_change cfg s s'.
+    bk_change cfg s s'
+| BK_wx : forall pid i ph,
+    s_queue s' = q_insert (waitx_event cfg pid i ph s) (s_queue s) -> s_await_a s' = s_await_a s -> s_await_b s' = s_await_b s ->
+    s_watches s' = s_watches s -> s_nextid s' = N.succ (s_nextid s) -> s_commitq s' = s_commitq s -> bk_change cfg s s'.
 
 (* fields that the bookkeeping-neutral operations leave alone *)
 Definition same_bk (s s' : state) : Prop :=
@@ -141,6 +147,14 @@ Proof.
     assert (C : same_ctl s s1) by (eapply same_ctl_trans; [|apply log_proc_ctl]; repeat split).
     destruct B as (B1 & B2 & B3 & B4 & B5 & B6 & _). destruct C as (C1 & _).
     apply (BK_wstable cfg s _ pid); unfold suspend_waitstable; simpl; try assumption. congruence.
+  - (* WaitClock on a clock without clocked nodes *)
+    cbv zeta. set (s0 := upd_proc pid (with_script rest) s).
+    set (s1 := log_proc pid (ASusp (WkX i ph) (s_nextid s0)) s0).
+    assert (B : same_bk s s1) by (eapply same_bk_trans; [|apply log_proc_bk]; repeat split).
+    assert (C : same_ctl s s1) by (eapply same_ctl_trans; [|apply log_proc_ctl]; repeat split).
+    destruct B as (B1 & B2 & B3 & B4 & B5 & B6 & _). destruct C as (C1 & C2 & C3 & _).
+    apply (BK_wx cfg s _ pid i ph); unfold suspend_waitx, fresh_id; cbv zeta; simpl; try assumption; try congruence.
+    unfold waitx_event. rewrite B1, B5, C1. reflexivity.
 Qed.
 
 Lemma log_wake_bk : forall pid w g s, same_bk s (log_wake pid w g s).
@@ -347,8 +361,8 @@ Lemma reach_sorted : forall c, reach c -> qsorted (s_queue (fst c)).
 Proof.
   induction 1 as [|c c' R IH T]; [exact boot_sorted|].
   inv_tstep T; cbn [fst] in *.
-  - destruct (frame_step_bk cfg f s s' (step_frame_spec _ _ _ _ _ Hsf)) as [Q|pid q Q|pid c ph Q|pid m Q|pid Q];
-      rewrite Q; try exact IH. apply q_insert_sorted. exact IH.
+  - destruct (frame_step_bk cfg f s s' (step_frame_spec _ _ _ _ _ Hsf)) as [Q|pid q Q|pid c ph Q|pid m Q|pid Q|pid i ph Q];
+      rewrite Q; try exact IH; apply q_insert_sorted; exact IH.
   - pose proof (task_head_bk t (set_ready r s)) as B. rewrite Hth in B. cbn [snd] in B. destruct B as (Q & _). rewrite Q. exact IH.
   - destruct (pop_event_sorted s e s1 Hpop IH) as (S1 & _).
     unfold event_head. destruct (e_type e).
